@@ -134,12 +134,18 @@ class C01ValidOutput(Checker):
             w.violate('C01', bad[0], bad[1])
 
 
+_TAINT = set()      # sids of nodes whose xsd_check was switched after construction (judged as unchecked)
+
+
 def check_tree_valid(node, et, top=False):
     """Walk shadow and output together; shadow tells which elements are checked."""
+    # the serialised root is checked (the caller made sure): its final checks recurse into *every* descendant and
+    # each descendant that is itself checked is validated, also below an unchecked element (the setting is per
+    # element); only the elements that are themselves unchecked are exempt
     st = [(node, et, True)]
     while st:
         n, e, checked_path = st.pop()
-        checked_here = checked_path and n.xsd_check
+        checked_here = n.xsd_check and not n.sid in _TAINT
         names = [k.tag for k in e]
         if checked_here:
             m = spec.model_for_element(n.name)
@@ -171,8 +177,8 @@ def check_tree_valid(node, et, top=False):
             if i < len(lst):
                 # if same-named children differ in checkedness we cannot know which is which: be
                 # conservative and treat as unchecked unless all same-named are checked
-                all_checked = all(x.xsd_check for x in lst)
-                if all_checked:
+                same = len({x.xsd_check for x in lst}) == 1
+                if same:
                     st.append((lst[i], k, checked_here))
     return None
 
@@ -356,6 +362,10 @@ class Reach(Checker):
     def after(self, w, op, ev):
         if op['op'] == 'NEW' and ev['r'] == 'ok':
             w.cover.add('type:' + op['c']['name'])
+        if op['op'] == 'XSD_CHECK_SET' and ev['r'] == 'ok':
+            n0 = w.node(op['p'])
+            if n0 is not None:
+                _TAINT.add(n0.sid)
         if 'p' in op:
             node = w.node(op['p'])
             if node is not None:
@@ -557,6 +567,10 @@ def _recover(node, et):
         kids = list(el.get_children())
         if len(kids) != len(e):
             return {'elem': el.name, 'want_children': [k.name for k in kids], 'got_children': [k.tag for k in e]}
+        if sh is not None and sh.el is el and not sh.xsd_check and sh.sid not in _TAINT:
+            # an unchecked element keeps whatever it was given, in insertion order: the shadow is authoritative
+            if [c.name for c in sh.children] != [k.tag for k in e]:
+                return {'elem': el.name, 'given_children': [c.name for c in sh.children], 'got_children': [k.tag for k in e]}
         if not kids:
             want_t = '' if el.value_ is None else str(el.value_)
             got_t = e.text or ''
@@ -836,6 +850,11 @@ class C18Unchecked(Checker):
                     w.violate('C18', 'unchecked-raised', {'elem': node.name, 'op': k, 'exc': ev['t'],
                                                           'child': (op.get('c') or {}).get('name')})
                     return
+                if k in ('ADD', 'REPLACE') and ev['r'] == 'ok' and node.children:
+                    c = w.cheap(node)
+                    if not all(x is True for x in c['par']) or c['un'] != list(range(len(node.children))):
+                        w.violate('C18', 'unchecked-bookkeeping-wrong', {'elem': node.name, 'op': k, 'par': c['par'], 'un': c['un']})
+                        return
                 if k == 'TO_STRING' and ev['r'] == 'ok':
                     et = parse_children(w.text)
                     if et is not None:
